@@ -155,6 +155,9 @@ class Dataset:
         if len(nb_occur_elements_in_rankings) == 0:
             raise EmptyDatasetException("No elements found in input rankings")
 
+        # the mappings are rebuilt from scratch: no id or element of a previous analysis must survive
+        self._mapping_element_id.clear()
+        self._mapping_id_element.clear()
         id_element: int = 0
         for key, _ in nb_occur_elements_in_rankings.items():
             self._mapping_element_id[key] = id_element
